@@ -122,6 +122,12 @@ inductive Res (α : Type) where
   | outOfFuel
   deriving Repr
 
+/-- forget the `int` result -/
+def Res.dropRet : Res (St × Int) → Res St
+  | .ok (s, _) => .ok s
+  | .ub w => .ub w
+  | .outOfFuel => .outOfFuel
+
 /-! ### list surgery -/
 
 def findKey : List Node → Nat → Option Node
@@ -362,27 +368,14 @@ def execOp (fuel : Nat) (op : Op) (st : St) : Res St :=
   | .bind ev first flags h => .ok (bindEvent st ev first flags h)
   | .unbind slot => match st.slotIds[slot]? with
     | none => .ok st
-    | some id => match exec cfg own beh fuel (.unbindId id) st with
-      | .ok (st', _) => .ok st'
-      | .ub w => .ub w
-      | .outOfFuel => .outOfFuel
-  | .unbindId id => match exec cfg own beh fuel (.unbindId id) st with
-      | .ok (st', _) => .ok st'
-      | .ub w => .ub w
-      | .outOfFuel => .outOfFuel
+    | some id => (exec cfg own beh fuel (.unbindId id) st).dropRet
+  | .unbindId id => (exec cfg own beh fuel (.unbindId id) st).dropRet
   | .emit ev =>
-    if own.canEmit ev then
-      match exec cfg own beh fuel (.runEvent (own.wf ev) ev) st with
-      | .ok (st', _) => .ok st'
-      | .ub w => .ub w
-      | .outOfFuel => .outOfFuel
+    if own.canEmit ev then (exec cfg own beh fuel (.runEvent (own.wf ev) ev) st).dropRet
     else .ok st
   | .destroy =>
     -- tickit_bindings_unbind_and_destroy: reverse the chain, notify, free
-    match exec cfg own beh fuel (.destroyLoop st.list.reverse) st with
-      | .ok (st', _) => .ok st'
-      | .ub w => .ub w
-      | .outOfFuel => .outOfFuel
+    (exec cfg own beh fuel (.destroyLoop st.list.reverse) st).dropRet
 
 /-- A history: operations in sequence; stops at the first non-`ok` outcome. `destroy` ends it. -/
 def execOps (fuel : Nat) : List Op → St → Res St
